@@ -258,7 +258,8 @@ def _compute_slice_cases(cs):
     cases = [(2, (full, ["u", "x"])), (2, (full, "u")), (2, (Ellipsis, ("t", "x"))), (2, [full, ["t"]]), (3, (full, full, ["x", "u", "t"])), (3, (Ellipsis, "x")),
              (3, (Ellipsis, ["u", "t"])), (2, (full, ["x", "t", "u"])), (2, (slice(0, 3), ("u",))),
              (2, (full, slice("t", None))), (2, (full, slice(None, "u"))), (2, (full, slice(None, None, -1))), (2, (full, slice(None, None, 2))), (3, (Ellipsis, slice("u", "x", -1))),
-             (2, [0, 2, 3]), (2, [True, False, True, False, False, False, True]), (3, [1, 0, 3, 2])]
+             (2, [0, 2, 3]), (2, [True, False, True, False, False, False, True]), (3, [1, 0, 3, 2]),
+             (3, (0, 1)), (4, (2, 0, 1)), (3, (1, 2, ["u"]))]
     out = []
     for rank, key in cases:
         shape = tuple(range(7, 7 + rank - 1)) + (6,)
@@ -280,6 +281,11 @@ def _compute_slice_cases(cs):
             # a list of row numbers / a list mask on the first batch axis: handed on as the same LIST (a tuple would address several axes), whole space kept
             ok = isinstance(got[0], list) and list(got[0]) == list(key) and list(got[1].items()) == dims
             out.append((f"rank {rank}, row pick {key!r}: the same list under the whole space", ok, f"index {got[0]!r} ({type(got[0]).__name__}), space {list(got[1].items())}"))
+            continue
+        if isinstance(key, tuple) and all(isinstance(x, int) and not isinstance(x, bool) for x in key):
+            # integers only, one per leading axis: must reach the tensor as a TUPLE (as a list torch gathers those rows of the first axis)
+            ok = isinstance(got[0], tuple) and tuple(got[0]) == key and list(got[1].items()) == dims
+            out.append((f"rank {rank}, key {key!r}: one entry per axis, handed on as a tuple under the whole space", ok, f"index {got[0]!r} ({type(got[0]).__name__}), space {list(got[1].items())}"))
             continue
         names = key[-1]
         names = [names] if isinstance(names, str) else list(SpaceM(dims)[names].keys()) if isinstance(names, slice) else list(names)
@@ -633,6 +639,7 @@ def run(repo: Repo, rep):
 _P = "src/torchphysics/problem/spaces/points.py"
 _S = "src/torchphysics/problem/spaces/space.py"
 MUTANTS = [
+    dict(id="C12-M61", file="src/torchphysics/problem/spaces/points.py", old="        if was_tuple:\n", new="        if False:\n", rule="R-C12-3", what="tuple keys handed on as lists (the repaired defect)"),
     dict(id="C12-M60", file="src/torchphysics/problem/spaces/points.py", old="        if isinstance(val, (tuple, list)):", new="        if isinstance(val, tuple):", rule="R-C12-3", what="list keys modified in place (the repaired defect)"),
     dict(id="C12-M1", file=_P, old="torch.cat([self._t, other._t], dim=-1), self.space * other.space", new="torch.cat([self._t, other._t], dim=-1), other.space * self.space", rule="R-C12-1", what="space product swapped in join"),
     dict(id="C12-M2", file=_P, old="                    for var in out_space:\n                        out_idxs += rng[slc[var]]", new="                    for var in self.space:\n                        if var in out_space:\n                            out_idxs += rng[slc[var]]", rule="R-C12-3", what="columns in storage order"),
